@@ -137,6 +137,9 @@ type Machine struct {
 	lastModel   witness
 	varMemo     map[int][]int
 	qmemo       map[string]Result
+	offCache    map[*types.Struct][]int64
+	finfo       map[*ssa.Function]*funcInfo
+	sizeCache   map[types.Type]int
 	lastPanic   string
 }
 
@@ -621,10 +624,27 @@ func (m *Machine) monitor(cond *Term, kind, label string) {
 
 // ---------- layout helpers ----------
 
-func (m *Machine) sizeof(t types.Type) int  { return int(m.P.sizes.Sizeof(t)) }
+func (m *Machine) sizeof(t types.Type) int {
+	if s, ok := m.sizeCache[t]; ok {
+		return s
+	}
+	s := int(m.P.sizes.Sizeof(t))
+	m.sizeCache[t] = s
+	return s
+}
+
 func (m *Machine) alignof(t types.Type) int { return int(m.P.sizes.Alignof(t)) }
 
 func (m *Machine) fieldOffsets(st *types.Struct) []int64 {
+	if o, ok := m.offCache[st]; ok {
+		return o
+	}
+	o := m.fieldOffsets0(st)
+	m.offCache[st] = o
+	return o
+}
+
+func (m *Machine) fieldOffsets0(st *types.Struct) []int64 {
 	n := st.NumFields()
 	fs := make([]*types.Var, n)
 	for i := 0; i < n; i++ {
